@@ -76,7 +76,25 @@ def run(ctx, replay):
     with open(sp, "w") as fh:
         json.dump(dict(behaviours=behaviours), fh)
     tp = os.path.join(ctx.scratch, "hist.ndjson")
-    ctx.run_worker(["pool-history", sp, tp], testing=True, timeout=1200)
+    # reference bytes of every probe from processes that never formatted anything else: one process
+    # per output format (a package-level cache filled by another kind of record cannot hide there)
+    probes = sorted(set(b["probe"] for b in behaviours))
+    merged = {}
+    for f in range(3):
+        mine = [p for p in probes if p // 1000 == f]
+        if not mine:
+            continue
+        pp, bp = os.path.join(ctx.scratch, "probes%d.json" % f), os.path.join(ctx.scratch, "base%d.json" % f)
+        with open(pp, "w") as fh:
+            json.dump(mine, fh)
+        ctx.run_worker(["pool-baseline", pp, bp], testing=True, timeout=600)
+        with open(bp) as fh:
+            merged.update(json.load(fh))
+    bl = os.path.join(ctx.scratch, "baselines.json")
+    with open(bl, "w") as fh:
+        json.dump(merged, fh)
+    ctx.extra["baseline_processes"] = 3
+    ctx.run_worker(["pool-history", sp, tp, bl], testing=True, timeout=1200)
     rows = read_ndjson(tp)
     if len(rows) != len(behaviours):
         raise Undecided("worker produced %d of %d results" % (len(rows), len(behaviours)))
